@@ -112,7 +112,8 @@ func readTokenPat(p *an.Prog, fn *ssa.Function) *tokenPat {
 		}
 		d := int64(-1)
 		if qc := an.CallOf(v); qc != nil && an.CallName(qc) == "regexp.QuoteMeta" {
-			if dd, ok := delimIndexOf(qc.Args[0]); ok {
+			arg, _ := resolveEnv(qc.Args[0], pc.env)
+			if dd, ok := delimIndexOf(arg); ok {
 				d = dd
 			}
 		}
